@@ -11,6 +11,8 @@ R:   every dumped behaviour (format repeated 2..4 times x interface) is replayed
 import json
 import random
 
+from harness import gamma as G
+
 from harness import chain, conv
 from harness.common import NCPU, MachineryError
 
@@ -19,6 +21,7 @@ FIX_FMTS = ('{"class", "pydantic", "function", "argparse", "docstring", "json_sc
 
 
 def check(run, replay=None):
+    G.OPENERS[0] = G.DOC_OPENERS      # (inherited by the forked replay workers)
     run.rule = ("behaviour = (format repeated 2..4 times, interface of 1..2 parameters from the hostile domain: 15 type shapes "
                 "incl. untyped, compatible defaults in any position, plain and trigger-word descriptions); distinct = distinct "
                 "(format, rounds, interface); every round is a real emit -> render -> re-read -> parse")
@@ -51,7 +54,18 @@ def check(run, replay=None):
     if quick and len(cases) > 6000:
         one = [c for c in cases if len(c["i"]["params"]) == 1]
         two = [c for c in cases if len(c["i"]["params"]) == 2]
-        cases = one + random.Random(run.seed).sample(two, max(0, 6000 - len(one)))
+        # stratified: every (format, type, default kind, description kind of the first parameter, return entry) stratum of the two-parameter
+        # behaviours is represented before the rest of the budget is spent at random (a growing domain must not starve the rare strata)
+        rnd = random.Random(run.seed)
+        strata = {}
+        for c in two:
+            p = c["i"]["params"][0]
+            strata.setdefault((c["hist"][0], p["typ"], p["def"], p["doc"], c["i"]["ret"]["doc"]), []).append(c)
+        picked = [rnd.choice(v) for _, v in sorted(strata.items())]
+        ids = {id(c) for c in picked}
+        rest = [c for c in two if id(c) not in ids]
+        cases = one + picked + rnd.sample(rest, max(0, min(len(rest), 7000 - len(one) - len(picked))))
+        run.extra["sample"] = {"one_parameter": len(one), "strata_of_two": len(picked), "cases": len(cases)}
     else:
         run.exhaustive = True
 
